@@ -288,6 +288,7 @@ class RotatingBloomFilter(ExpandingBloomFilter):
             hash_function=hash_function,
         )
         self._queue_size = max_queue_size
+        self._trim_queue()
 
     @classmethod
     def frombytes(  # type:ignore
@@ -307,8 +308,15 @@ class RotatingBloomFilter(ExpandingBloomFilter):
             est_elements=est_els, false_positive_rate=fpr, max_queue_size=max_queue_size, hash_function=hash_function
         )
         blm._parse_blooms(b, size)
+        blm._trim_queue()
         blm._added_elements = added_els
         return blm
+
+    def _trim_queue(self) -> None:
+        """a loaded queue can hold more Bloom Filters than `max_queue_size` allows; keep the most recent ones"""
+        excess = len(self._blooms) - max(self._queue_size, 1)
+        if excess > 0:
+            del self._blooms[:excess]
 
     @property
     def max_queue_size(self) -> int:
